@@ -50,6 +50,13 @@ func evalGcmenc(args []string) string {
 	iv, ivb := spare(in[1], 24)
 	aad, ab := spare(in[2], 24)
 	pt, pb := spare(in[3], 24)
+	if len(key) == 16 { // the caller's key buffer held another key a moment ago
+		for i := range key {
+			key[i] = byte(0x5c ^ i)
+		}
+		sm4.Sm4GCM(key, iv, pt, aad, true)
+		copy(key, in[0])
+	}
 	c, t, err := sm4.Sm4GCM(key, iv, pt, aad, true)
 	if err != nil {
 		return "err"
